@@ -513,6 +513,48 @@ class Inliner:
             new_with.items = [ast.withitem(context_expr=ast.Name(id=tmp, ctx=ast.Load()), optional_vars=st.items[0].optional_vars)]
             ast.fix_missing_locations(pre)
             return self._stmt(pre, depth) + self._stmt(new_with, depth)
+        # with self._cm(...) as x: BODY   with a private @contextmanager generator that yields once at its top level (or once in the
+        # body of a top-level try/finally): the generator's statements before the yield, `x = <yielded>`, BODY, the statements after
+        # (which run only when BODY completes; a `finally` part also when it raises)
+        if isinstance(st, ast.With) and len(st.items) == 1 and isinstance(st.items[0].context_expr, ast.Call):
+            r = self.resolve_call(st.items[0].context_expr)
+            if r is not None and _is_generator(r[0]) and any(norm(d).split(".")[-1] == "contextmanager" for d in r[0].decorator_list):
+                fn_cm, bound = r
+                body_cm = _body(fn_cm)
+
+                def top_yields(stmts):
+                    return [x for x in stmts if isinstance(x, ast.Expr) and isinstance(x.value, ast.Yield)]
+                all_y = [n for n in ast.walk(fn_cm) if isinstance(n, (ast.Yield, ast.YieldFrom))]
+                tries = [x for x in body_cm if isinstance(x, ast.Try) and not x.handlers and not x.orelse and len(top_yields(x.body)) == 1]
+                simple = len(all_y) == 1 and len(top_yields(body_cm)) == 1
+                in_try = len(all_y) == 1 and len(tries) == 1 and not top_yields(body_cm)
+                if (simple or in_try) and not any(isinstance(n, ast.Return) for n in ast.walk(fn_cm) if n is not fn_cm):
+                    try:
+                        inst = self._instantiate(fn_cm, st.items[0].context_expr, bound, None)
+                        tgt = st.items[0].optional_vars
+                        inner_body = list(st.body)
+
+                        def splice(stmts):
+                            out = []
+                            for x in stmts:
+                                if isinstance(x, ast.Expr) and isinstance(x.value, ast.Yield):
+                                    if tgt is not None and x.value.value is not None:
+                                        a_ = ast.Assign(targets=[copy.deepcopy(tgt)], value=x.value.value)
+                                        ast.copy_location(a_, st)
+                                        out.append(a_)
+                                    out.extend(inner_body)
+                                elif isinstance(x, ast.Try) and in_try and any(isinstance(y, ast.Expr) and isinstance(y.value, ast.Yield) for y in x.body):
+                                    x.body = splice(x.body)
+                                    out.append(x)
+                                else:
+                                    out.append(x)
+                            return out
+                        new_stmts = splice(inst)
+                        for x in new_stmts:
+                            ast.fix_missing_locations(x)
+                        return self._block(new_stmts, depth - 1)
+                    except CannotInline:
+                        pass
         call = None
         mode = None
         if isinstance(st, ast.Expr) and isinstance(st.value, ast.Call):
@@ -1713,9 +1755,11 @@ def desugar_genexp_loops(fn: ast.FunctionDef) -> ast.FunctionDef:
         if not same:
             # the comprehension's variables become loop locals: they must not be names the function uses elsewhere
             body_names = {n.id for b in lp.body for n in ast.walk(b) if isinstance(n, ast.Name)}
-            if (t2 - t1) & body_names or any(stores.get(x, 0) for x in t2 - t1):
-                return None
-            if t2 & t1 and norm(comp.elt) != norm(g.target):
+            own_stores = {}
+            for n in ast.walk(g.target):
+                if isinstance(n, ast.Name):
+                    own_stores[n.id] = own_stores.get(n.id, 0) + 1
+            if (t2 - t1) & body_names or any(stores.get(x, 0) - own_stores.get(x, 0) > 0 for x in t2 - t1):
                 return None
         body = list(lp.body)
         if not same:
@@ -2493,6 +2537,16 @@ def split_conditional_callee(fn: ast.FunctionDef) -> ast.FunctionDef:
         if isinstance(n, ast.Name) and isinstance(n.ctx, ast.Load) and n.id in cands:
             uses[n.id] = uses.get(n.id, 0) + 1
     done: Set[str] = set()
+    # definitions directly followed by the call statement: nothing can change the condition in between
+    adjacent: Set[str] = set()
+    for blk_owner in ast.walk(fn):
+        for fld in ("body", "orelse", "finalbody"):
+            blk = getattr(blk_owner, fld, None)
+            if isinstance(blk, list):
+                for a_, b_ in zip(blk, blk[1:]):
+                    if isinstance(a_, ast.Assign) and len(a_.targets) == 1 and isinstance(a_.targets[0], ast.Name) and a_.targets[0].id in cands \
+                            and isinstance(b_, ast.Expr) and isinstance(b_.value, ast.Call) and isinstance(b_.value.func, ast.Name) and b_.value.func.id == a_.targets[0].id:
+                        adjacent.add(a_.targets[0].id)
 
     class X(ast.NodeTransformer):
         def visit_Expr(self, node):
@@ -2500,7 +2554,9 @@ def split_conditional_callee(fn: ast.FunctionDef) -> ast.FunctionDef:
             if isinstance(c, ast.Call) and isinstance(c.func, ast.Name) and c.func.id in cands and uses.get(c.func.id) == 1:
                 ie = cands[c.func.id]
                 # the condition must not be changed between the definition and the call: only plain-name conditions are moved
-                if all(isinstance(x, (ast.Name, ast.UnaryOp, ast.Not, ast.Load, ast.BoolOp, ast.And, ast.Or)) for x in ast.walk(ie.test)):
+                pure_adjacent = c.func.id in adjacent and all(isinstance(x, (ast.Name, ast.Attribute, ast.Constant, ast.Compare, ast.UnaryOp, ast.Not, ast.Load,
+                                                                              ast.BoolOp, ast.And, ast.Or, ast.cmpop)) for x in ast.walk(ie.test))
+                if pure_adjacent or all(isinstance(x, (ast.Name, ast.UnaryOp, ast.Not, ast.Load, ast.BoolOp, ast.And, ast.Or)) for x in ast.walk(ie.test)):
                     a = ast.Expr(value=ast.Call(func=copy.deepcopy(ie.body), args=copy.deepcopy(c.args), keywords=copy.deepcopy(c.keywords)))
                     b = ast.Expr(value=ast.Call(func=copy.deepcopy(ie.orelse), args=copy.deepcopy(c.args), keywords=copy.deepcopy(c.keywords)))
                     done.add(c.func.id)
